@@ -225,11 +225,12 @@ inline Outcome compare_session(const Case& c, Violations& V, Stats& S, const cha
             if (ph == 1) copy = stack;
             if (ph == 2) {
                 if (stack.empty() || !cast_to_bool(stack.back())) re = Err::EVAL_FALSE;
+                else if (!is_push_only(P.scripts[0])) re = Err::SIG_PUSHONLY;   // BIP16: scriptSig of a P2SH spend must be push-only
                 else { stack = copy; script = stack.back(); stack.pop_back(); }
             }
             std::string e = step_impl(); stepno++;
             if (re != Err::OK) {
-                if (e == "") { rep(std::string("step-outcome:switch;ref=") + err_name(re) + ";impl=OK", "script switch must fail"); return O; }
+                if (e == "") { rep(std::string("step-outcome:switch;ref=") + err_name(re) + ";impl=OK;" + c.klass, "script switch must fail with " + std::string(err_name(re))); return O; }
                 impl_failed = true;
                 break;
             }
